@@ -151,7 +151,9 @@ def closed_form_case(ctx, rng, forced=None):
                 force_orthotropic_laminate=p.force_orthotropic_laminate)
     if lam < best * (1 - 1e-9):
         return desc, 'Ritz buckling load %.9e is BELOW the closed-form value %.9e' % (lam, best)
-    if 0.5 <= a <= 2. and lam > best * (1 + 5e-2):
+    waves_ = min((math.pi ** 2 * (D[0, 0] * (i / a) ** 4 + 2 * (D[0, 1] + 2 * D[2, 2]) * (i / a) ** 2 * (j / b) ** 2 + D[1, 1] * (j / b) ** 4)
+                   / ((i / a) ** 2 + ratio * (j / b) ** 2), max(i, j)) for i in range(1, 12) for j in range(1, 12))[1]
+    if 0.5 <= a <= 2. and lam > best * (1 + 5e-2) and 2 * waves_ + 2 <= mn:
         return desc, 'Ritz buckling load %.9e has not converged to the closed-form value %.9e with m=n=%d' % (lam, best, mn)
     # frequencies with rotary inertia: w^2 = D-form / (mu h (1 + h^2/12 * pi^2 (i^2/a^2 + j^2/b^2)))
     h = sum(p.plyts)
@@ -172,12 +174,21 @@ UNITS = {      # (length, modulus, density) factors of a consistent unit system 
 
 
 def closed_forms(a, b, D, mu, h, ratio):
-    best = min(math.pi ** 2 * (D[0, 0] * (i / a) ** 4 + 2 * (D[0, 1] + 2 * D[2, 2]) * (i / a) ** 2 * (j / b) ** 2 + D[1, 1] * (j / b) ** 4)
-               / ((i / a) ** 2 + ratio * (j / b) ** 2) for i in range(1, 14) for j in range(1, 14))
+    cands = [(math.pi ** 2 * (D[0, 0] * (i / a) ** 4 + 2 * (D[0, 1] + 2 * D[2, 2]) * (i / a) ** 2 * (j / b) ** 2 + D[1, 1] * (j / b) ** 4)
+              / ((i / a) ** 2 + ratio * (j / b) ** 2), max(i, j)) for i in range(1, 14) for j in range(1, 14)]
+    best, waves = min(cands)
     wcf = min(math.sqrt(math.pi ** 4 * (D[0, 0] * (i / a) ** 4 + 2 * (D[0, 1] + 2 * D[2, 2]) * (i / a) ** 2 * (j / b) ** 2 + D[1, 1] * (j / b) ** 4)
                         / (mu * h * (1 + h * h / 12. * math.pi ** 2 * ((i / a) ** 2 + (j / b) ** 2))))
               for i in range(1, 6) for j in range(1, 6))
+    closed_forms.waves = waves        # half-waves of the critical buckling mode in its wavier direction
     return best, wcf
+
+
+def resolvable(waves, mn):
+    """the 5 % convergence demand is made only when the series can represent the critical mode: `mn` Bardell terms per direction resolve about
+    (mn - 2) / 2 half-waves to that accuracy (a [90/0/0/90] plate with a/b = 1.7 buckles in 3 half-waves; m = n = 6 is then 6.7 % high - not a
+    defect, and not what the property promises: 'converging to' is a statement about refinement; false alarm of the quick tier at VERIF_SEED=4)"""
+    return 2 * waves + 2 <= mn
 
 
 def analysis_case(ctx, rng, t):
@@ -243,7 +254,7 @@ def analysis_case(ctx, rng, t):
             if val < cf * (1 - 1e-6):
                 return desc, '%s delivers %.9e as lowest value, BELOW the closed form %.9e (%s, m=n=%d, step %d of a sweep on one object)' % (
                     name, val, cf, unit, mn, step)
-            if 0.5 <= ar <= 2.5 and val > cf * (1 + 5e-2):
+            if 0.5 <= ar <= 2.5 and val > cf * (1 + 5e-2) and (name.endswith('freq') or resolvable(closed_forms.waves, mn)):
                 return desc, '%s delivers %.9e as lowest value; it has not converged to the closed form %.9e (%s, m=n=%d, step %d of a sweep on one object)' % (
                     name, val, cf, unit, mn, step)
             if step == 2 and name in prev and val > prev[name] * (1 + 1e-7):
